@@ -8,6 +8,12 @@ from fractions import Fraction as Fr
 import esrv
 
 PROPS_V = "Props/C07.v"
+# functions the hand-written model of this property was written against (normalised source stored under harness/corr/guards/;
+# a difference is reported as broken-correspondence: the theorems then no longer speak about the current source)
+SOURCE_GUARDS = [
+    ("esr/fitting/test_all_Fisher.py", "convert_params"),
+]
+
 TRANSLATORS = []
 TRUSTED = [
     "Coq 8.16.1 kernel + vm_compute (no native_compute)",
